@@ -156,19 +156,20 @@ Fixpoint survive_ok (closed : bool) (want : N) (i : N) (es : list exch) : bool :
    before the proofs; Obligations.ob_wf_twin proves the two equal) hold of what the transport delivered *)
 Definition is_token_b (k : str) : bool := is_token k.
 Definition nocrlfb (s : str) : bool := forallb (fun c => negb (c =? 13) && negb (c =? 10)) s.
-Definition wf_snapshot (r : resp) (order : list str) : bool :=
+Definition wf_snapshot (q : req) (r : resp) (order : list str) : bool :=
   (r_major r <? 10) && (r_minor r <? 10) && (r_code r <? 1000) && nocrlfb (reason_text r) &&
   forallb (fun kv => negb (written_key resp_exclude (fst kv)) ||
                      (negb (eq_fold (fst kv) (b "transfer-encoding")) && negb (eq_fold (fst kv) (b "content-length"))))
           (r_hdr r) &&
   forallb (fun kv => is_token (fst kv) && str_eqb (canon (fst kv)) (fst kv)) (r_trailer r) &&
   (-1 <=? r_cl r)%Z && forallb is_token order &&
-  (negb (r_chunked r) || ((r_cl r =? -1)%Z && proto_at_least_11 (r_major r) (r_minor r))) &&
-  (negb (r_cl r =? 0)%Z || negb (nonempty (concat (reads_of r)))).
+  (rfc_no_body (q_method q) (r_code r) ||
+   ((negb (r_chunked r) || ((r_cl r =? -1)%Z && proto_at_least_11 (r_major r) (r_minor r))) &&
+    (negb (r_cl r =? 0)%Z || negb (nonempty (concat (reads_of r)))))).
 Definition ecase_model_ok (c : ecase) : bool :=
   str_eqb (concat (map exch_wire (e_exchs c))) (e_stream c) &&
   survive_ok (e_closed c) (e_want c) 0 (e_exchs c) &&
-  forallb (fun e => wf_snapshot (exch_resp e) (e_order e)) (e_exchs c).
+  forallb (fun e => wf_snapshot (e_req e) (exch_resp e) (e_order e)) (e_exchs c).
 
 Definition values_match (got : list (str * str)) (want : str * list str) : bool :=
   list_str_eqb (field_values (fst want) got) (snd want).
